@@ -83,6 +83,16 @@ CHECKS = {
    text="Theorems: sixComponent_matrix, vonMises_rot, eqRange_rot, life_rot (every orthogonal Q, both modes), life_perm, range_offset/life_offset, lump_repeat, life_scale, life_antitone, add_tube, worse_loads. Tied to srlife by metamorphic pairs on the real code: random rotations of all stress/strain samples, permutations of tubes/elements/quadrature points (exact), constant strain offsets, 1-4 repetitions of a day, scaling of per-cycle damages through the real make_extrapolate/calculate_max_cycles, worse stresses/strain ranges at one point, an extra tube; plus a reduced model correspondence on base and transformed inputs.",
    note="Trusted: as C01; monotonicity under worse loads uses that rupture time / cycles to failure are antitone on the recorded ranges (proved for the shipped data in C20); point-level antitonicity is proved for the lumped mode only.",
    design="4/C09"),
+ "C03": dict(
+   technique="Lean 4 proof (mesh numbering/connectivity and pressure-facet selection for all nr, nt >= 3, nz by integer arithmetic and list induction; consistent-load resultant algebra; Lame solution verified with HasDerivAt) + exact mesh correspondence with the real scikit-fem meshes + load-vector and elastic-solve predicates",
+   text="Theorems: node_numbering, conn_wellformed (2D/3D elements are the grid neighbours with the seam wrapped, in the coded vertex order, distinct, correct counts, every node used), pressure_facets_spec (the loaded facets are exactly the inner-surface facets: no end-face or outer facet, each once), end_faces_unloaded, pressure_load_1d, consistent_load_resultant, pressure_normal_spec, pressure_resultant (no axial component; radial resultant = p x discretised inner area x cos(pi/nt)), lame_equilibrium (radial equilibrium with HasDerivAt, sigma_r(r_i) = -p, sigma_r(r_o) = 0), lame_compatibility, lame_axial_force (force and stiffness pi(ro^2-ri^2)E/h). Tied to srlife by comparing node positions, connectivity columns and the vertex sets of the real pressure boundary with the model for 84 meshes per run (exact), the assembled external force vector of the real forms with the model's nodal loads (1e-9), and by real elastic solves: stresses vs the Lean-evaluated Lame solution under refinement (observed order >= 1.8 on ring means), 1D = 2D = 3D stresses, force per area and stiffness within mesh tolerance.",
+   note="Trusted: Lean kernel + Mathlib; scikit-fem assembly of the quad/hex forms and NEML's linear elasticity (convergence to the Lame solution and cross-abstraction agreement under T(r) are measured, not proved); per-facet resultants read through a scikit-fem internal API with a one-facet FacetBasis fallback.",
+   design="4/C03"),
+ "C15": dict(
+   technique="Lean 4 proof (fold of the thermal/mechanical strain bookkeeping over any history and any sub-increment split by list induction; telescoping for constant and affine expansion coefficient; causality as a take/prefix law) + bit-exact correspondence with the real bookkeeping functions + predicates on real solves in 1D/2D/3D",
+   text="Theorems: partition, thermal_isotropic(_stored), thermal_zero_if_unchanged, thermal_const_cte, thermal_affine_cte, stored_symmetric, strain_symmetric, causal, elastic_path_independent (expansion coefficient affine in T over the step), path_dependent_outside_hypothesis (witness with a quadratic coefficient: finding F25), free_expansion. Tied to srlife by comparing calculate_mechanical_strain, _setup_state, dump_state and the accepted sub-increments of the real solve loop with the model bit-exactly (alpha values from the real NEML material sent along), and by real solves over multi-step temperature/pressure histories in all three abstractions (constant-alpha elastic, shipped 316H elastic and creeping models): partition, isotropy, zero-if-unchanged, alpha*(T-T0), symmetry, free expansion, truncation bit-equal (causality), path independence under forced subdivision and under scripted retries.",
+   note="Trusted: Lean kernel + Mathlib; NEML's alpha(T) and stress update; the hypothesis Step.Closed (last accepted sub-increment ends the step) is C10's success_spec; free expansion is evaluated with tight inner tolerances. Open finding F25: elastic state depends on subdivision when alpha is not affine in T over a step.",
+   design="4/C15"),
 }
 PENDING_REASON = "check not built yet in this round (work in progress; see DESIGN.md section 4 for the planned model and theorems) — not claimed"
 
